@@ -167,8 +167,8 @@ Print Assumptions C07b_respelling_entries.
 
 (* ---- ... and the DOCUMENTS are equal up to the cobol keyword (the one keyword that shows how the entry was written), for
         copybooks without REDEFINES in which the word FILLER is written in upper case and the decoder's second parse of every
-        entry ends up with the entry's own usage and picture (respelling_domain: excludes the known findings K-C12-lowercase,
-        K-C12-value-literal-reparsed, C07-K3).  Clause order, optional words, synonyms (PIC / PICTURE, COMP / BINARY / COMP-4,
+        entry ends up with the entry's own usage and picture (respelling_domain: excludes the known findings K-C12-lowercase and
+        K-C12-value-literal-reparsed; keyword-bearing data names are no longer excluded, Props/C04e.v).  Clause order, optional words, synonyms (PIC / PICTURE, COMP / BINARY / COMP-4,
         COMP-3 / PACKED-DECIMAL ...), letter case of the other reserved words, separators and layout are free. ---- *)
 Theorem C07b_respelling_partial : forall es tail seqs es' tail' seqs',
   Forall2 same_clauses es es' ->
